@@ -72,7 +72,43 @@ fn cells(family: &str, w: &MWord) -> Vec<(String, Option<MWord>, String)> {
 
 pub fn families() -> Vec<String> { let mut v = vec!["set".to_string(), "match".into(), "nodealpha".into()]; for f in 0..26 { v.push(format!("alpha:{f}")); } v }
 
-impl C04 { fn check_free(&self, _case: &Value) -> Outcome { Outcome::skip("malformed case") } }
+impl C04 {
+    fn check_free(&self, _case: &Value) -> Outcome { Outcome::skip("malformed case") }
+    /// `[±F.., αG.., ..] > [±H.., αK, -βL..]` on a word of several segments: every segment is decided on its own (no environment), alphas are unbound at every position
+    fn check_mixed(&self, case: &Value) -> Outcome {
+        let text = case["word"].as_str().unwrap_or("");
+        let args = |v: &Value| -> Vec<(String, usize)> { v.as_array().map(|a| a.iter().filter_map(|x| Some((x[0].as_str()?.to_string(), x[1].as_u64()? as usize))).collect()).unwrap_or_default() };
+        let (inp, out) = (args(&case["in"]), args(&case["out"]));
+        if inp.is_empty() || out.is_empty() || inp.iter().chain(out.iter()).any(|(_, f)| *f >= 26) { return Outcome::skip("malformed case") }
+        let mt = |v: &[(String, usize)]| v.iter().map(|(s, f)| format!("{s}{}", FEATS[*f].0)).collect::<Vec<_>>().join(", ");
+        let rule = format!("[{}] > [{}]", mt(&inp), mt(&out));
+        let w = match api::parse_word(text) { Ok(Ok(w)) => w, _ => return Outcome::skip("word does not parse") };
+        let mw = MWord::from_asca(&w);
+        let mut fired = 0; let mut skipped_after_partial = false; let mut partial = false;
+        let expect = map_segs(&mw, |s| {
+            let mut bind: std::collections::HashMap<&str, bool> = Default::default();
+            for (sg, f) in &inp { match sg.as_str() { "+" => if !s.matches(*f, true) { return *s }, "-" => if !s.matches(*f, false) { return *s }, a => match s.feat(*f) { Some(v) => { bind.insert(a, v); } None => return *s } } }
+            let mut r = *s;
+            for (sg, g) in &out { match sg.as_str() { "+" => r.set_feat(*g, true), "-" => r.set_feat(*g, false), a => { let (inv, name) = match a.strip_prefix('-') { Some(n) => (true, n), None => (false, a) }; if let Some(v) = bind.get(name) { r.set_feat(*g, *v != inv) } } } }
+            r
+        });
+        // non-trivial: some segment matches after an earlier segment bound an alpha and then failed a later argument
+        for s in mw.flat() {
+            let mut bound = false; let mut ok = true;
+            for (sg, f) in &inp { match sg.as_str() { "+" => if !s.matches(*f, true) { ok = false; break }, "-" => if !s.matches(*f, false) { ok = false; break }, _ => match s.feat(*f) { Some(_) => bound = true, None => { ok = false; break } } } }
+            if ok { fired += 1; if partial { skipped_after_partial = true; } } else if bound { partial = true; }
+        }
+        match api::apply_rules(&[rule.clone()], &w) {
+            Err(a) => Outcome::fail(format!("mixed|{}", a.signature()), json!({"rule": rule, "word": text})),
+            Ok(Err(e)) => Outcome::fail("mixed|unexpected error", json!({"rule": rule, "word": text, "error": format!("{e:?}")})),
+            Ok(Ok(g)) => {
+                let g = MWord::from_asca(&g);
+                if g != expect { return Outcome::fail("mixed|matrix with fixed and alpha arguments: result differs from the model", json!({"rule": rule, "word": text, "expected": expect.show(), "got": g.show()})) }
+                if fired > 0 && skipped_after_partial { Outcome::pass_nt(hash64(&case.to_string())) } else { Outcome::pass() }
+            }
+        }
+    }
+}
 
 impl Property for C04 {
     fn id(&self) -> &'static str { "C04" }
@@ -80,7 +116,7 @@ impl Property for C04 {
         "Exhaustive over segments S = 365 bases ∪ every base+1 diacritic (model-applied diacritic; kept if asca parses it to the same bundle), each placed alone (`S`) and as the middle syllable of `pa.S.ta`, \
          × rule families: set (`[] > [±F]` for 26 features, `[] > [±lab|cor|dor|phr]`, `[] > [-place]`; `[+place]` and `[±root|manner|lar]` must be errors), match (`[±F] > [tone:7]`, `[±node] > [tone:7]`, tone as the match marker), \
          alpha (`[αF] > [αG]` and `[αF] > [-αG]` for all 26×26 pairs), node alphas (`[αN] > [αN]`, `[] > [αN] / _[αN]`). One case = (segment, context, family) = 10-62 rule applications; the result is compared structurally with a bit-level model \
-         (own representation: root/manner/laryngeal bytes + four optional sub-nodes; in addition the place node of every result segment must be absent exactly when all four sub-nodes are). Both tiers enumerate the whole space; the thorough tier adds every 4th base+2-diacritic text. Non-trivial: the model predicts a change of the word for at least one rule of the case.".into()
+         (own representation: root/manner/laryngeal bytes + four optional sub-nodes; in addition the place node of every result segment must be absent exactly when all four sub-nodes are). Both tiers enumerate the whole space; the thorough tier adds every 4th base+2-diacritic text. A random part (300k / 4M cases) applies `[±F.., αG.., ±H..] > [±K.., αL, -βM..]` (2-4 input and 1-3 output arguments, fixed signs directed at a segment of the word) to words of 2-6 pool segments; model: every segment is decided on its own, alphas unbound at every position; non-trivial there = a segment matches after an earlier segment bound an alpha and then failed a later argument. Non-trivial: the model predicts a change of the word for at least one rule of the case.".into()
     }
     fn exhaustive(&self, _t: Tier) -> bool { true }
     fn assumptions(&self) -> Vec<String> { vec!["conversion asca::Segment -> model uses the public fields and get_place_sub_nodes(); C18 checks those accessors against the raw bits".into(), "feature -> (node, bit) table typed from the manual's feature chart and the Segment doc comment".into()] }
@@ -99,6 +135,31 @@ impl Property for C04 {
                 }
             }
         }
+        // random part: matrices that mix fixed-sign and alpha arguments, on words of several segments, so that the scan meets
+        // segments which pass the arguments up to an alpha and fail a later one before it reaches a segment that matches
+        let n = ctx.tier.pick(300_000, 4_000_000);
+        run_tape_batches(self, ctx, "mixed", n, 120, &|t| {
+            let nseg = 2 + t.pick(4);
+            let mut text = String::new();
+            for i in 0..nseg { if i > 0 && t.chance(1, 3) { text.push('.'); } text.push_str(&pick_seg(t, 30).text); }
+            let Ok(Ok(pw)) = api::parse_word(&text) else { return None };
+            let flat = MWord::from_asca(&pw).flat();
+            let tgt = flat[t.pick(flat.len())];
+            let mut used: Vec<usize> = vec![]; let mut inp: Vec<(String, usize)> = vec![]; let mut alphas: Vec<&str> = vec![];
+            let n_in = 2 + t.pick(3);
+            for k in 0..n_in {
+                let f = t.pick(26); if used.contains(&f) { continue } used.push(f);
+                if (k == 0 || t.chance(1, 3)) && alphas.len() < 2 { let a = ["α", "β"][alphas.len()]; alphas.push(a); inp.push((a.to_string(), f)); }
+                else { let b = match tgt.feat(f) { Some(v) if t.chance(4, 5) => v, _ => t.chance(1, 2) }; inp.push(((if b { "+" } else { "-" }).to_string(), f)); }
+            }
+            let mut out: Vec<(String, usize)> = vec![]; let mut used_o: Vec<usize> = vec![];
+            for _ in 0..(1 + t.pick(3)) {
+                let g = t.pick(26); if used_o.contains(&g) { continue } used_o.push(g);
+                let sign = if !alphas.is_empty() && t.chance(1, 2) { let a = alphas[t.pick(alphas.len())]; if t.chance(1, 3) { format!("-{a}") } else { a.to_string() } } else { (if t.chance(1, 2) { "+" } else { "-" }).to_string() };
+                out.push((sign, g));
+            }
+            Some(json!({"kind": "mixed", "word": text, "in": inp, "out": out}))
+        });
         if ctx.tier == Tier::Thorough {
             let t = tables(); let mut k = 0usize;
             for d in &p.dia1 { for d2 in &t.dias {
@@ -111,6 +172,7 @@ impl Property for C04 {
         }
     }
     fn check(&self, case: &Value) -> Outcome {
+        if case["kind"] == "mixed" { return self.check_mixed(case) }
         if case["seg"].is_null() { return self.check_free(case) }
         let text = case["word"].as_str().unwrap_or("");
         let w = match api::parse_word(text) { Ok(Ok(w)) => w, Ok(Err(_)) => return Outcome::skip("asca does not parse this base+diacritic"), Err(a) => return Outcome::fail(a.signature(), json!({"word": text})) };
